@@ -1,0 +1,41 @@
+//go:build verif
+
+package routing
+
+// Hooks for the verification harness of the forwarding procedure (build tag verif, add-only).
+
+import (
+	"fmt"
+	"time"
+
+	"github.com/dtn7/dtn7-go/pkg/bpv7"
+)
+
+// VerifSetReceptionTime rewrites the reception timestamp kept for a stored bundle (the store
+// item's "bundlepack/timestamp" property, from which a retry computes the residence time), so
+// that the harness can choose a residence time without sleeping.
+func (c *Core) VerifSetReceptionTime(bid bpv7.BundleID, t time.Time) error {
+	bi, err := c.store.QueryId(bid.Scrub())
+	if err != nil {
+		return err
+	}
+	if _, ok := bi.Properties["bundlepack/timestamp"]; !ok {
+		return fmt.Errorf("no reception timestamp stored for %v", bid)
+	}
+	bi.Properties["bundlepack/timestamp"] = t
+	return c.store.Update(bi)
+}
+
+// VerifReceptionTime returns the stored reception timestamp of a bundle.
+func (c *Core) VerifReceptionTime(bid bpv7.BundleID) (time.Time, bool) {
+	bi, err := c.store.QueryId(bid.Scrub())
+	if err != nil {
+		return time.Time{}, false
+	}
+	v, ok := bi.Properties["bundlepack/timestamp"]
+	if !ok {
+		return time.Time{}, false
+	}
+	t, ok := v.(time.Time)
+	return t, ok
+}
